@@ -504,6 +504,12 @@ def bad_encodings(rng):
         out.append(bytes([pre]) + xb)  # bad prefix, 33 bytes (4 + 32 bytes is also invalid)
     for pre in (0, 2, 3, 5, 6, 7):
         out.append(bytes([pre]) + xb + yb)  # bad prefix, 65 bytes (6/7 hybrid are not accepted encodings here)
+    # compressed prefix on a 65-byte string whose first 32 payload bytes are zero: read as ONE 64-byte integer the
+    # payload equals the x coordinate, so a decoder that does not check the length sees a valid compressed key
+    out.append(bytes([2 + (good[1] & 1)]) + bytes(32) + xb)
+    out.append(bytes([3 - (good[1] & 1)]) + bytes(32) + xb)
+    out.append(bytes([2 + (good[1] & 1)]) + bytes(31) + xb)  # 64 bytes: wrong length
+    out.append(b"\x04" + xb)  # uncompressed prefix on 33 bytes
     for ln in (0, 1, 31, 34, 64, 66):
         out.append((b"\x02" + xb + yb + b"\x00")[:ln])
     out.append(ec.b32(P + rng.randrange(2**256 - P)))  # x-only x >= p
